@@ -71,11 +71,25 @@ class Pools:
             )
         return self.pools[devices]
 
+    def _submit(self, devices: int, fn, *args):
+        """Submit; a pool broken by a dead worker (watchdog exit) is replaced once - the cases
+        that were in it have already been reported as harness errors."""
+        from concurrent.futures.process import BrokenProcessPool
+
+        try:
+            return self.get(devices).submit(fn, *args)
+        except BrokenProcessPool:
+            old = self.pools.pop(devices, None)
+            if old is not None:
+                old.shutdown(wait=False, cancel_futures=True)
+            self.broken = getattr(self, "broken", 0) + 1
+            return self.get(devices).submit(fn, *args)
+
     def submit_case(self, devices: int, prop: str, seed: int, explicit_plan=None, keep_hist=False):
-        return self.get(devices).submit(_task, prop, seed, explicit_plan, keep_hist)
+        return self._submit(devices, _task, prop, seed, explicit_plan, keep_hist)
 
     def submit_custom(self, devices: int, fn_path: str, *args):
-        return self.get(devices).submit(_custom, fn_path, args)
+        return self._submit(devices, _custom, fn_path, args)
 
     def shutdown(self):
         for p in self.pools.values():
